@@ -28,6 +28,8 @@ fn classify_err(e: &DecErr) -> Option<String> {
         DecErr::WrongDirection(_) => Some("client-only-type".into()),
         DecErr::BadFlags { typ: 3, .. } => None, // DUP on QoS 0: minimq is lenient, MQTT says malformed; left open
         DecErr::BadFlags { .. } => Some("illegal-flags".into()),
+        // the Connect Acknowledge Flags of a CONNACK are flags too: reserved bits 7..1 set
+        DecErr::Other(w) if w == "reserved connack flag bits" => Some("illegal-flags-connack".into()),
         DecErr::BadQos => Some("qos3".into()),
         DecErr::Truncated(w) if *w == "prop" || *w == "property block" || *w == "property length" || *w == "varint" => None,
         DecErr::Truncated(_) => Some("field-past-packet".into()),
